@@ -22,3 +22,4 @@ python3 "$(dirname "$0")/../vx/bounded.py" exports quick >/dev/null 2>&1 || true
 python3 "$(dirname "$0")/../vx/bounded.py" introspect quick >/dev/null 2>&1 || true
 python3 "$(dirname "$0")/../vx/bounded.py" optype quick >/dev/null 2>&1 || true
 python3 "$(dirname "$0")/../vx/bounded.py" variables quick >/dev/null 2>&1 || true
+python3 "$(dirname "$0")/../vx/bounded.py" runtimedoc quick >/dev/null 2>&1 || true
